@@ -106,7 +106,9 @@ package scheduler
 //@             len(bq.platformQueues) == old(len(bq.platformQueues)) + 1 &&
 //@             bq.platformQueues[old(len(bq.platformQueues))] == r0 && *(&r0.platformKey) == platformKey
 //@ func (*sizeClassQueue).remove
-//@   props C05
+//@   props C05 C01
+//@   ensures exactly-the-removed-queue-leaves-the-list:
+//@             len(pq.sizeClassQueues) == old(len(pq.sizeClassQueues)) - 1 && len(pq.sizeClasses) == old(len(pq.sizeClasses)) - 1
 //@   ensures removed-platform-no-longer-resolves:
 //@             len(pq.sizeClasses) == 0 ==> triemap[bq.platformQueuesTrie][*(&pq.platformKey)] == 0
 //@   ensures moved-queue-resolves-to-the-freed-slot:
